@@ -181,7 +181,8 @@ ReversePositionReply(W, input, output) ==
      ELSE IF oi = FAIL THEN Fail(W, "cap")
      ELSE IF sw.lev = 0 THEN Fail(W, "div0")
      ELSE IF rest \div sw.lev = 0
-     THEN IF W.eng.cfg.native /\ fd.amount # req0 THEN Fail(W, "funds")
+     THEN IF mtv > 0 THEN Fail(W, "bad_debt")            \* fix F13: negative equity is rejected
+          ELSE IF W.eng.cfg.native /\ fd.amount # req0 THEN Fail(W, "funds")
           ELSE Done([W1 EXCEPT !.eng.tmp.swap = FALSE, !.eng.tmp.funds = FALSE,
                                !.eng.tmpd.swap = NoTmpd.swap, !.eng.tmpd.funds = NoTmpd.funds],
                     fe.msgs \o <<Xfer(W, t, Abs(mtv))>>)
